@@ -4,7 +4,7 @@ from __future__ import annotations
 import ast
 from fractions import Fraction
 
-from ..astu import U, has, walk_shallow, call_name, calls_in, kwarg, linform, lin_str, monomial, mono_str
+from ..astu import U, has, same, walk_shallow, call_name, calls_in, kwarg, linform, lin_str, monomial, mono_str
 from ..cfg import build, defs_of
 from ..core import AnalysisError, Mutant, Rule, Twin
 from ..idioms import subscript_stores, for_loops, target_names
@@ -226,6 +226,14 @@ def r6_common_multiple(ctx):
     ctx.check(good, a, "running-maximum", "each prime's exponent must be the running maximum `factors[f] = max(factors[f], ...)` over all coefficients; a later coefficient must not overwrite a larger "
               "earlier requirement (rcd would no longer be a common multiple and rcd // v truncates): %s" % ([U(u.stmt) for u in stores] + [U(c) for c in other]), node=stores[0].stmt if stores else fn)
     ctx.check(has(fn, "rcd = reduce(mul, (k ** v for k, v in factors.items()), 1)"), a, "product-over-all-primes", "rcd must be the product of prime ** exponent over the whole table", node=fn)
+    if ok and stores:
+        coef, prime = U(outer[0].target), U(inner[0].target)
+        want = "sympy.Abs(%s // %s)" % (coef, prime)
+        for u in stores:
+            v = u.value
+            others = [x for x in v.args if U(x) != "factors[%s]" % U(u.key)] if isinstance(v, ast.Call) and len(v.args) == 2 else []
+            ctx.check(len(others) == 1 and same(others[0], want, scope=fn), a, "exponent>=multiplicity", "the exponent requested for prime %s by coefficient %s must be |%s // %s| (at least the multiplicity of the prime in the coefficient); found %s"
+                      % (prime, coef, coef, prime, U(others[0]) if others else U(v)), node=u.stmt)
 
 
 def sweep_reduce(ctx):
@@ -326,3 +334,5 @@ TWINS = [
 # shared rule A2 (name resolution of the analysed code unchanged)
 MUTANTS.append(Mutant("override-added-in-subclass", [(CHEM, "    def as_reactions(\n", "    def net_stoich(self, substance_keys):\n        return tuple(0 for _ in substance_keys)\n\n    def as_reactions(\n")], "C11-A2", "new-override"))
 MUTANTS.append(Mutant("builtin-shadowed", [(CHEM, "def balance_stoichiometry(", "def sum(seq, start=0):\n    return start\n\n\ndef balance_stoichiometry(")], "C11-A2", "shadows-builtin"))
+
+MUTANTS.append(Mutant("eliminate-multiplicity-swapped", [(CHEM, "factors[f] = max(factors[f], sympy.Abs(v // f))", "factors[f] = max(factors[f], sympy.multiplicity(abs(v), f))")], "C11-R6", "exponent>=multiplicity"))
